@@ -1,5 +1,7 @@
 package supervisor
 
+import "github.com/megaease/easegress/pkg/context"
+
 // ---------------------------------------------------------------------------
 // C20 harnesses, package supervisor. Two harness controller kinds record their
 // lifecycle callbacks; the reference is the per-name rule of the statement.
@@ -78,7 +80,22 @@ func vNewSpec(s *Supervisor, yamlConfig string) (*Spec, error) {
 }
 
 var vNames = []string{"a", "b", "c"}
-var vKinds = []string{"VA", "VB"}
+var vKinds = []string{"VA", "VB", "VP"} // VP: a kind of another category (a pipeline): not the supervisor's
+
+// vCtlP: an object of a category the supervisor's own watcher does not handle
+type vCtlP struct{ pad int }
+
+func (c *vCtlP) Category() ObjectCategory { return CategoryPipeline }
+func (c *vCtlP) Kind() string             { return "VP" }
+func (c *vCtlP) DefaultSpec() interface{} { return &struct{}{} }
+func (c *vCtlP) Status() *Status          { return nil }
+func (c *vCtlP) Close()                   { vRecord(vLogEntry{op: opClose, self: c}) }
+func (c *vCtlP) Init(s *Spec, m context.MuxMapper) {
+	vRecord(vLogEntry{op: opInit, name: s.Name(), rev: vRevOf(s), self: c})
+}
+func (c *vCtlP) Inherit(s *Spec, p Object, m context.MuxMapper) {
+	vRecord(vLogEntry{op: opInherit, name: s.Name(), rev: vRevOf(s), self: c, prev: p})
+}
 
 type vAbs struct {
 	present bool
@@ -91,6 +108,7 @@ type vAbs struct {
 func vSetup() {
 	objectRegistry["VA"] = &vCtlA{}
 	objectRegistry["VB"] = &vCtlB{}
+	objectRegistry["VP"] = &vCtlP{}
 	vTokens = map[string]*vTok{}
 	vNLog = 0
 }
@@ -102,17 +120,23 @@ func vToken(label string, name string, kind int, rev int64) string {
 }
 
 func vNewInstance(kind int) Object {
-	if kind == 0 {
+	switch kind {
+	case 0:
 		return &vCtlA{}
+	case 1:
+		return &vCtlB{}
 	}
-	return &vCtlB{}
+	return &vCtlP{}
 }
 
 func vKindOf(o Object) int {
-	if _, ok := o.(*vCtlA); ok {
+	switch o.(type) {
+	case *vCtlA:
 		return 0
+	case *vCtlB:
+		return 1
 	}
-	return 1
+	return 2
 }
 
 // vCheckName compares the callbacks received for one name with the statement.
@@ -133,6 +157,21 @@ func vCheckName(name string, pre, post vAbs, s *Supervisor, or *ObjectRegistry) 
 		case e.op == opClose && pre.present && e.self == pre.inst:
 			closes++
 		}
+	}
+	// a snapshot entry of another category is not the supervisor's to run: for the supervisor
+	// the name is absent (an earlier controller of that name is closed), the registry keeps it
+	foreign := post.present && post.kind == 2
+	if foreign {
+		verifAssert(inits == 0 && inherits == 0, "object-of-another-category-is-not-started-by-the-supervisor")
+		if pre.present {
+			verifAssert(closes == 1, "kind-change-across-categories-closes-the-old-controller")
+			verifCover("kind-changed-across-categories")
+		}
+		_, ok1 := or.entities[name]
+		_, ok2 := s.businessControllers.Load(name)
+		_, ok3 := s.watcher.entities[name]
+		verifAssert(ok1 && !ok2 && !ok3, "live-set-equals-snapshot")
+		return
 	}
 	switch {
 	case !pre.present && !post.present:
@@ -190,12 +229,15 @@ func vDrain(s *Supervisor) {
 	}
 }
 
+// vSnapshotKinds: 2 = the two controller kinds; 3 = also the kind of another category
+var vSnapshotKinds = 2
+
 func vSnapshot(label string, n int) (map[string]string, [3]vAbs) {
 	var post [3]vAbs
 	config := map[string]string{}
 	for i := 0; i < n; i++ {
 		if verifBool(label + ".present") {
-			post[i] = vAbs{present: true, kind: verifChoose(label+".kind", 2), rev: verifInt(label+".rev", 0, 3)}
+			post[i] = vAbs{present: true, kind: verifChoose(label+".kind", vSnapshotKinds), rev: verifInt(label+".rev", 0, 3)}
 			config[vNames[i]] = vToken(label, vNames[i], post[i].kind, post[i].rev)
 		}
 	}
@@ -227,7 +269,9 @@ func verifC20_Step() {
 		s.businessControllers.Store(vNames[i], a.entity)
 		pre[i] = a
 	}
+	vSnapshotKinds = 3
 	config, post := vSnapshot("snap", n)
+	vSnapshotKinds = 2
 	vPanicAt = int(verifInt("panicAt", -1, 3))
 	vPanicAt2 = -1
 	if verifBound("panics") >= 2 && vPanicAt >= 0 {
